@@ -127,8 +127,17 @@ def run(ctx, chk):
                     worst = net if worst is None else min(worst, net)
                 li['ok'] = bool(segs) and worst is not None and worst >= 1
                 li['why'] += '; least net removal per iteration over %d abstract iteration paths: %s' % (len(segs), worst)
+            if li['kind'] == 'while-cmp':
+                # ranking argument read off the abstract paths through the body (engine.probe_loop): the
+                # guard compares a local with a value the loop does not change, and on every path to
+                # the back edge the local has moved towards that value by at least one
+                recs = [r_ for e_ in (eng_s, eng_p) for r_ in e_.loop_rank.get((f, li['head']), [])]
+                bad = [r_ for r_ in recs if not r_['ok']]
+                li['ok'] = bool(recs) and not bad
+                li['why'] += ': ' + (bad[0]['why'] if bad else (recs[0]['why'] if recs else 'the loop was not reached by the abstract interpreter')) + \
+                    ' (%d abstract visits)' % len(recs)
             chk.instance('R-TERM', short(f), 'loop#%d:%s' % (nloops_in(f, li, prog), li['kind']), li['ok'], detail=li['why'], span=li['span'],
-                         what='loop not shown to terminate: %s' % li['why'], undischarged=(li['kind'] == 'other'))
+                         what='loop not shown to terminate: %s' % li['why'], undischarged=(li['kind'] in ('other', 'while-cmp')))
     chk.floor('loops analysed', nloops, 10)
     sccs, graph = structural.call_graph_sccs(prog, reach)
     completed = {ep for ep, rs in sr['results'].items() if all(r.error is None for r in rs)}
